@@ -404,9 +404,13 @@ static async_runtime_t *rt; static async_queue_t *q; static async_worker_t *work
 static platform_timer_t timer; static long timer_cbs = 0;
 static void timer_cb() { timer_cbs++; ev("timer_cb %ld", timer_cbs); }
 static volatile int worker_iterations = 0;
+static long optl(const char *k, long d);
 static void *worker_proc(void *) {
   ev("worker_start");
-  while (!async_worker_should_stop(async_worker_current())) { worker_iterations++; struct timespec ts = {0, 1000000}; nanosleep(&ts, NULL); }
+  // with worker_exit_after=N the procedure returns on its own after N turns (a console worker at EOF does that), whether
+  // or not anybody asked it to stop
+  long lim = optl("worker_exit_after", -1);
+  while (!async_worker_should_stop(async_worker_current()) && (lim < 0 || worker_iterations < lim)) { worker_iterations++; struct timespec ts = {0, 1000000}; nanosleep(&ts, NULL); }
   ev("worker_stopping");
   return NULL;
 }
